@@ -171,7 +171,7 @@ def comment_programs(tier, seed):
     progs.append(Prog('com/line', [T('a', ' '), Com('// c1 c2'), T('b', '\n')], ['A']))
     progs.append(Prog('com/after-ifdef', [Cond(False, [('A', [Com('// in a'), T('x', '\n')])], [Com('/* in e */'), T('y', '\n')]), Com('// tail'), T('z', '\n')], ['A']))
     progs.append(Prog('com/next-to-use', [Com('/* l */', ''), Use('A', None, ''), Com('/* r */', ' '), T('z', '\n')], ['A']))
-    progs.append(Prog('com/in-define-body', [Def('M', 'm1 /* keep */ m2'), T('a', ' '), Use('M', None, ' '), Com('// t'), T('z', '\n')], ['A']))
+    progs.append(Prog('com/in-define-body', [Def('M', 'm1 /* keep */ m2', body_items=[T('m1', ' '), Com('/* keep */', ' '), T('m2', '')]), T('a', ' '), Use('M', None, ' '), Com('// t'), T('z', '\n')], ['A']))
     progs.append(Prog('com/kept', [Kept('`timescale 1ns/1ps'), Com('// after kept'), T('q', '\n')], ['A']))
     progs.append(Prog('com/undef', [Undef('A'), Com('// c'), T('q', ' '), Com('/* d */', ' '), UndefAll(), T('r', '\n')], ['A']))
     progs.append(Prog('com/multi', [Com('/* a\n b */'), T('x', ' '), Com('/**/', ''), T('y', '\n'), Com('//'), T('z', '\n')], ['A']))
